@@ -849,6 +849,8 @@ pub enum Op2 {
     Insert { peer: u8, fam: u8, attr: u8 },
     Remove { peer: u8, fam: u8 },
     Drop { peer: u8 },
+    /// the session ends with graceful restart for the OTHER family only: this family is dropped at once
+    DropFam { peer: u8, fam: u8 },
     NhValid { up: bool },
     StartDeferral(u8),
     EndDeferral(u8),
@@ -856,6 +858,7 @@ pub enum Op2 {
 
 pub struct TwoFamModel {
     pub ops: Vec<Op2>,
+    oracle: &'static str,
 }
 
 pub struct Sys2 {
@@ -891,6 +894,7 @@ impl Model for TwoFamModel {
             Op2::Insert { peer, fam, attr } => format!("insert({},{},{})", p(peer), f(fam), ATTR_NAMES[*attr as usize]),
             Op2::Remove { peer, fam } => format!("remove({},{})", p(peer), f(fam)),
             Op2::Drop { peer } => format!("drop({})", p(peer)),
+            Op2::DropFam { peer, fam } => format!("drop_family({},{})", p(peer), f(fam)),
             Op2::NhValid { up } => format!("nexthop(N1,{})", if *up { "up" } else { "down" }),
             Op2::StartDeferral(x) => format!("start_deferral({})", f(x)),
             Op2::EndDeferral(x) => format!("end_deferral({})", f(x)),
@@ -930,6 +934,11 @@ impl Model for TwoFamModel {
                     changes.extend(cs);
                 }
                 sys.src[*peer as usize] = mk_source(*peer);
+            }
+            Op2::DropFam { peer, fam } => {
+                let addr = sys.src[*peer as usize].remote_addr;
+                let (cs, _) = sys.t.drop(addr, FAMS2[*fam as usize]);
+                changes.extend(cs);
             }
             Op2::NhValid { up } => {
                 if *up != sys.nh_down {
@@ -1004,6 +1013,29 @@ impl Model for TwoFamModel {
                 ));
             }
         }
+        if self.oracle == "C15" {
+            // per peer and family: the statistics against a recount from the RIB (the fold clauses are C06's)
+            cur.clear();
+            for (pi, src) in sys.src.iter().enumerate() {
+                for (i, f) in FAMS2.iter().enumerate() {
+                    let (mut rx, mut acc) = (0u64, 0u64);
+                    for d in sys.t.destinations(TableQuery::Global, *f, vec![], true) {
+                        let mine: Vec<_> = d.paths.iter().filter(|p| p.source.remote_addr == src.remote_addr).collect();
+                        if !mine.is_empty() {
+                            rx += 1;
+                        }
+                        acc += mine.iter().filter(|p| !p.filtered).count() as u64;
+                    }
+                    let got = sys.t.peer_stats(&src.remote_addr).and_then(|mut it| it.find(|(ff, _)| ff == f).map(|(_, st)| (st.received, st.accepted))).unwrap_or((0, 0));
+                    if got != (rx, acc) {
+                        cur.push((
+                            format!("C15/peer-stats/cross-family/{}/{}", op_kind(&name), ["v4", "v6"][i]),
+                            format!("after {name}: peer_stats({}) for {} reports received={} accepted={} but the RIB holds {} prefixes / {} accepted paths of that peer", ["A", "B"][pi], ["v4", "v6"][i], got.0, got.1, rx, acc),
+                        ));
+                    }
+                }
+            }
+        }
         let mut now = BTreeSet::new();
         for (sig, what) in cur {
             let clause = format!("{}{}", sig.split('/').nth(1).unwrap_or(""), sig.rsplit('-').next().unwrap_or(""));
@@ -1047,7 +1079,7 @@ impl Model for TwoFamModel {
     }
 }
 
-pub fn twofam() -> TwoFamModel {
+pub fn twofam(oracle: &'static str) -> TwoFamModel {
     let mut ops = Vec::new();
     for fam in 0..2u8 {
         ops.push(Op2::Insert { peer: 0, fam, attr: 0 });
@@ -1058,9 +1090,11 @@ pub fn twofam() -> TwoFamModel {
         ops.push(Op2::EndDeferral(fam));
     }
     ops.push(Op2::Drop { peer: 0 });
+    ops.push(Op2::DropFam { peer: 0, fam: 0 });
+    ops.push(Op2::DropFam { peer: 0, fam: 1 });
     ops.push(Op2::NhValid { up: false });
     ops.push(Op2::NhValid { up: true });
-    TwoFamModel { ops }
+    TwoFamModel { ops, oracle }
 }
 
 pub fn run(oracle: &'static str, replay: Option<&str>) -> Report {
@@ -1072,7 +1106,7 @@ pub fn run(oracle: &'static str, replay: Option<&str>) -> Report {
             return rep;
         };
         if name == "c06-twofam" {
-            let m = twofam();
+            let m = twofam(oracle);
             eprintln!("replay {}", bfs::render(&m, &hist));
             rep.evaluations = 1;
             rep.violations_from(bfs::replay(&m, &hist, true));
@@ -1098,9 +1132,9 @@ pub fn run(oracle: &'static str, replay: Option<&str>) -> Report {
         let cfg = BfsCfg { max_depth: depth, max_secs: if rep.thorough() { 1500 } else { 40 }, ..Default::default() };
         bfs::bfs(m, &cfg, &mut rep);
     }
-    if oracle == "C06" {
-        let cfg = BfsCfg { max_depth: depth + 1, max_secs: if rep.thorough() { 600 } else { 20 }, ..Default::default() };
-        bfs::bfs(&twofam(), &cfg, &mut rep);
+    {
+        let cfg = BfsCfg { max_depth: if oracle == "C06" { depth + 1 } else { depth.min(9) }, max_secs: if rep.thorough() { 600 } else { 20 }, ..Default::default() };
+        bfs::bfs(&twofam(oracle), &cfg, &mut rep);
     }
     rep
 }
